@@ -134,6 +134,46 @@ CHECKS = {
              "the progress measure per item plus a cut-off.",
         technique="TLA+ reference reader (safety) and session machine (liveness under fairness) model-checked with TLC; streams and call histories replayed; traces validated by TLC",
     ),
+    "C05": dict(
+        category="model_checking",
+        text="TLC enumerates the literal grammar (radix prefixes, signs, leading zeros, every 64-bit boundary computed with "
+             "decimal-digit arithmetic, decimal forms up to the overflow/underflow edges), checks that every literal has exactly one "
+             "denotation class and that the integer classes partition [-2^63, 2^64-1], and emits each literal with its exact "
+             "denotation and required accuracy class. Both feature builds of the parser read each literal and seeded random ones; "
+             "integers are compared exactly, floats are classified (correctly rounded / within 2^-50 / bad) with big-integer "
+             "arithmetic and std's float parser; TLC recomputes denotation and class from the literal text and judges every event, "
+             "and checks that every printed number is a literal denoting that number.",
+        design_ref="DESIGN.md section 6 (C05), sections 3.2, 9",
+        note="TLC does no floating point: the achieved accuracy is measured by the harness (big.rs, str::parse::<f64> as the correctly "
+             "rounded reference) and is part of the trusted base; TLC decides which class is required and that integers are exact. "
+             "Values within 2^-50 above f64::MAX may be rejected or rounded to f64::MAX ('edge').",
+        technique="TLA+ literal grammar and exact denotation (decimal-digit bignums) model-checked with TLC; literals replayed into both feature builds; results validated by TLC",
+    ),
+    "C06": dict(
+        category="fault_enumeration",
+        text="The two byte-source machines (IoRead with its one-byte look-ahead over a line/column counting iterator, and the slice "
+             "cursor) are model-checked side by side under every schedule of Interrupted answers and a hard error from every offset: "
+             "same bytes, same cursor, same position, no byte skipped or duplicated, a fault is reported exactly when reached. Seeded "
+             "Read-trait call sequences on the real types are validated by TLC against that machine. At parse level every input is "
+             "read from str, slice and stream under several chunking/Interrupted/BufReader schedules and with a hard read error at "
+             "every byte offset 0..=len; TLC judges the relation of the property, using the reference reader to decide whether the "
+             "delivered bytes already determined the outcome.",
+        design_ref="DESIGN.md section 6 (C06), section 3.5",
+        note="Trusted: TLC, the instrumented io::Read (error identity via a marker type), the reference reader for 'already malformed'. "
+             "Error locations are not compared across sources (C11/C19 cover positions).",
+        technique="TLA+ source machines model-checked with TLC; reader call traces and fault-injected parse runs validated by TLC",
+    ),
+    "C15": dict(
+        category="model_checking",
+        text="TLC enumerates every element sequence (bounded length) over elements of every kind with every tail of a 12-tail table, "
+             "and association lists with duplicate keys and non-pair entries, checks the list model (spec/ListOps.tla: Build merges, "
+             "iterator machine yields xs then None, t, None, indexing) and emits the expected result of every accessor. The harness "
+             "builds each list in up to six ways and compares every accessor; seeded call sequences on the three iterators and lists "
+             "of up to 10^4 computable elements are validated by TLC against the iterator machines.",
+        design_ref="DESIGN.md section 6 (C15), section 3.8",
+        note="Trusted: TLC, harness observation code. Bounded: length <= 3 (quick) / 4 (thorough) for exhaustive cases.",
+        technique="TLA+ list model and iterator machines model-checked with TLC; accessor expectations replayed; iterator traces validated by TLC",
+    ),
     "C07": dict(
         category="fault_enumeration",
         text="The sink machine of spec/Sink.tla (write_all discipline against a sink that may accept any prefix, return 0, fail or "
@@ -165,7 +205,7 @@ def main():
         pass
     m = {
         "version": 1,
-        "setup_cmd": "cd /verif/harness && cargo build --release --offline",
+        "setup_cmd": "cd /verif/harness && cargo build --release --offline && cd /verif/harness-nofast && cargo build --release --offline",
         "hooks": {
             "guard": "--cfg lexpr_verif",
             "enable": "harness/.cargo/config.toml sets rustflags = [\"--cfg\", \"lexpr_verif\"]; the harness has path dependencies "
